@@ -29,6 +29,14 @@ DERIV = {
     "tanh": lambda A: Rat.const(1) - A("tanh(p)") ** 2,
     "expm1": lambda A: A("exp(p)"),
 }
+# rows for further arities: (function, arity) -> partial derivative by argument
+# index, over atoms "p<j>" and "<fn>(p<j>)"
+DERIV_N = {
+    ("log", 2): [       # log(u, b) = log(u)/log(b)
+        lambda A: Rat.const(1) / (A("p0") * A("log(p1)")),
+        lambda A: -A("log(p0)") / (A("p1") * A("log(p1)") ** 2),
+    ],
+}
 NONSMOOTH = {"fabs": ("continuous", "discontinuous")}
 DISCONTINUOUS = {"copysign": ("discontinuous",)}
 
@@ -285,6 +293,8 @@ def _table(ctx, model):
                    "supported)")
             continue
         for ps, gate, arity in rows:
+            if arity != 1 and (fname, arity) in DERIV_N:
+                continue        # decided per argument index below
             if ps.term != "return":
                 ctx.ob(f"E/table/{fname}", False, loc,
                        f"math.{fname} is smooth but its rule raises")
@@ -300,6 +310,57 @@ def _table(ctx, model):
                    f"d/dp {fname}(p) = {want}" if ok else
                    f"the rule for math.{fname} gives {got}, the derivative is "
                    f"{want}", {"rule": ast.unparse(ps.items[-1][1])})
+    # rows of other arities: the partial derivative depends on which argument
+    # is differentiated; decided by concretising the argument index
+    def atoms_n(v):
+        if v[0] == "call" and len(v) >= 5 and _fn_name(v[4]) and \
+                len(v[2]) == 1 and v[2][0][0] == "index" and \
+                v[2][0][1] == PARS and isinstance(v[2][0][2], int):
+            return f"{_fn_name(v[4])}(p{v[2][0][2]})"
+        if v[0] == "index" and v[1] == PARS and isinstance(v[2], int):
+            return f"p{v[2]}"
+        return None
+    for (fname, arity), refs in DERIV_N.items():
+        if not any(a == arity for _, _, a in seen.get(fname, [])):
+            continue            # (an optional row)
+        for k, ref in enumerate(refs):
+            got_any = False
+            for ps in summarize(fn, plain=True, assume={
+                    fn.args.args[0].arg: ("const", k)}):
+                f2 = a2 = None
+                for _, pol, v in ps.conds:
+                    if pol and isinstance(v, tuple) and v[0] == "boolop" and \
+                            v[1] == "And":
+                        for c in v[2]:
+                            if c[0] == "compare" and c[1] == ("Eq",) and \
+                                    c[2] == ("param", "func"):
+                                f2 = _fn_name(c[3][0])
+                            if c[0] == "compare" and c[1] == ("Eq",) and \
+                                    c[2] == ("len", PARS):
+                                a2 = c[3][0][1]
+                if (f2, a2) != (fname, arity):
+                    continue
+                got_any = True
+                key = f"E/table/{fname}/{arity}-arguments/d{k}"
+                if ps.term != "return":
+                    ctx.ob(key, False, loc, f"math.{fname} with {arity} "
+                           "arguments is smooth but its rule raises")
+                    continue
+                try:
+                    got = _to_rat(ps.retval, atoms_n)
+                except Unsupported as e:
+                    raise AnalysisError(
+                        f"{loc}: rule for {fname}/{arity} outside the normal "
+                        f"form's fragment: {e}")
+                want = ref(Rat.atom)
+                ok = got.equals(want)
+                ctx.ob(key, ok, loc,
+                       f"d/dp{k} {fname}(p0..p{arity - 1}) = {want}" if ok else
+                       f"the rule for math.{fname} with {arity} arguments gives "
+                       f"{got} for argument {k}, the derivative is {want}")
+            if not got_any:
+                raise AnalysisError(f"{loc}: no path for {fname}/{arity}, "
+                                    f"argument {k}")
     # gates, decided by substituting each setting for the parameter (so that
     # any spelling of the test -- in / not in / == / !=, either branch order --
     # reads the same)
